@@ -52,23 +52,57 @@ fn update_max<T>(value: T, min: &mut Option<T>)
     ensures *final(min) == upd_max(*old(min), value)
 { unimplemented!() }
 
-/// Iterator::any / Iterator::find over the prototype with a name-equality closure (assumed std semantics)
+/// Iterator::any / Iterator::find over the prototype with a name-equality closure are spelled out as the loops that define them
+/// (`any`: true iff some element satisfies the closure; `find`: the first such element); the helpers below are VERIFIED, not assumed
 spec fn has_name(p: Seq<Record>, name: RecordName) -> bool { exists|i: int| 0 <= i < p.len() && (#[trigger] p[i]).name == name }
 #[verifier::opaque]
 spec fn first_named(p: Seq<Record>, name: RecordName) -> int { choose|i: int| 0 <= i < p.len() && (#[trigger] p[i]).name == name && forall|j: int| 0 <= j < i ==> p[j].name != name }
-#[verifier::external_body]
-fn shim_has(p: &Vec<Record>, name: RecordName) -> (r: bool) ensures r == has_name(p@, name) { unimplemented!() }
-#[verifier::external_body]
+proof fn lemma_first_is(p: Seq<Record>, name: RecordName, k: int)
+    requires 0 <= k < p.len(), p[k].name == name, forall|j: int| 0 <= j < k ==> (#[trigger] p[j]).name != name
+    ensures first_named(p, name) == k, has_name(p, name)
+{
+    reveal(first_named);
+    let f = choose|i: int| 0 <= i < p.len() && (#[trigger] p[i]).name == name && forall|j: int| 0 <= j < i ==> p[j].name != name;
+    if f < k { assert(p[f].name != name); }
+    if k < f { assert(p[k].name != name); }
+}
+fn shim_has_ref(p: &[Record], name: &RecordName) -> (r: bool)
+    ensures r == has_name(p@, *name)
+{
+    let mut found = false;
+    for i in 0..p.len()
+        invariant found == (exists|j: int| 0 <= j < i && (#[trigger] p@[j]).name == *name)
+    {
+        if !found && p[i].name == *name { found = true; }
+    }
+    found
+}
+fn shim_find_s<'a>(p: &'a [Record], name: RecordName) -> (r: Option<&'a Record>)
+    ensures (r is Some) == has_name(p@, name), r is Some ==> 0 <= first_named(p@, name) < p@.len() && *r->Some_0 == p@[first_named(p@, name)] && p@[first_named(p@, name)].name == name
+{
+    let mut r: Option<&'a Record> = None;
+    let ghost mut k: int = 0;
+    for i in 0..p.len()
+        invariant (r is None) ==> forall|j: int| 0 <= j < i ==> (#[trigger] p@[j]).name != name,
+            (r is Some) ==> 0 <= k < i && *r->Some_0 == p@[k] && p@[k].name == name && forall|j: int| 0 <= j < k ==> (#[trigger] p@[j]).name != name,
+    {
+        if r.is_none() && p[i].name == name { r = Some(&p[i]); proof { k = i as int; } }
+    }
+    proof { if r is Some { lemma_first_is(p@, name, k); } }
+    r
+}
+fn shim_has_s(p: &[Record], name: RecordName) -> (r: bool) ensures r == has_name(p@, name) { shim_has_ref(p, &name) }
+fn shim_has(p: &Vec<Record>, name: RecordName) -> (r: bool) ensures r == has_name(p@, name) { shim_has_ref(p.as_slice(), &name) }
 fn shim_find(p: &Vec<Record>, name: RecordName) -> (r: Option<&Record>)
     ensures (r is Some) == has_name(p@, name), r is Some ==> 0 <= first_named(p@, name) < p@.len() && *r->Some_0 == p@[first_named(p@, name)] && p@[first_named(p@, name)].name == name
-{ unimplemented!() }
+{ shim_find_s(p.as_slice(), name) }
 #[verifier::external_body]
 fn shim_vec_bsw(n: usize) -> (r: Vec<ByteStreamWriteBuffer>)
     ensures r@.len() == n, forall|i: int| 0 <= i < n ==> (#[trigger] r@[i]).wf() && r@[i].nbits() == 0
 { unimplemented!() }
 #[verifier::external_body]
 fn shim_opaque_from_str(s: &str) -> (r: Opaque) { unimplemented!() }
-/// validate_prototype (closures over iterators): contract-only; the facts used here are the documented rules it enforces
+/// what PointCloudWriter::new needs from an accepted prototype (derived from the rules below by lemma_rules_imply)
 spec fn proto_rules(p: Seq<Record>) -> bool {
     &&& forall|i: int| 0 <= i < p.len() ==> (((#[trigger] p[i]).name == RecordName::RowIndex || p[i].name == RecordName::ColumnIndex || p[i].name == RecordName::ReturnIndex) ==> p[i].data_type is Integer)
     &&& ((has_name(p, RecordName::CartesianY) || has_name(p, RecordName::CartesianZ)) ==> has_name(p, RecordName::CartesianX))
@@ -103,12 +137,160 @@ proof fn lemma_bounds_present(p: Seq<Record>, cb: bool, sb: bool, ib: bool)
         if nm == RecordName::ReturnIndex { assert(has_name(p, RecordName::ReturnIndex)); }
     }
 }
-#[verifier::external_body]
-fn validate_prototype_contract(p: &Vec<Record>) -> (r: Result<()>) ensures r is Ok ==> proto_rules(p@) { unimplemented!() }
-/// get_max_packet_points (iterator sum): contract-only; Kani unit wr_k checks totality and the packet-size bound (prototype length bounded)
-#[verifier::external_body]
-fn get_max_packet_points(p: &Vec<Record>) -> (r: usize) ensures 1 <= r <= 0x10_0000 { unimplemented!() }
-/// default limits: the declared range of the attribute's data type (Kani unit wr_k proves limits()/from_record_type(s) on the real functions)
+// ---- the documented prototype rules (doc comments and messages of pc_writer.rs), as a specification ----
+spec fn dt_of(p: Seq<Record>, name: RecordName) -> RecordDataType { p[first_named(p, name)].data_type }
+spec fn int_range(dt: RecordDataType, lo: i64, hi: i64) -> bool { dt == (RecordDataType::Integer { min: lo, max: hi }) }
+spec fn all_or_none(p: Seq<Record>, a: RecordName, b: RecordName, c: RecordName) -> bool {
+    (has_name(p, a) && has_name(p, b) && has_name(p, c)) || (!has_name(p, a) && !has_name(p, b) && !has_name(p, c))
+}
+/// an invalid-state / flag attribute needs its group and the integer range lo..hi
+spec fn flag_rule(p: Seq<Record>, flag: RecordName, needs: RecordName, hi: i64) -> bool {
+    has_name(p, flag) ==> has_name(p, needs) && int_range(dt_of(p, flag), 0, hi)
+}
+spec fn cartesian_rule(p: Seq<Record>) -> bool {
+    all_or_none(p, RecordName::CartesianX, RecordName::CartesianY, RecordName::CartesianZ)
+    && flag_rule(p, RecordName::CartesianInvalidState, RecordName::CartesianX, 2)
+}
+spec fn spherical_rule(p: Seq<Record>) -> bool {
+    all_or_none(p, RecordName::SphericalAzimuth, RecordName::SphericalElevation, RecordName::SphericalRange)
+    && flag_rule(p, RecordName::SphericalInvalidState, RecordName::SphericalAzimuth, 2)
+    && (has_name(p, RecordName::SphericalAzimuth) ==> !(dt_of(p, RecordName::SphericalAzimuth) is Integer))
+    && (has_name(p, RecordName::SphericalElevation) ==> !(dt_of(p, RecordName::SphericalElevation) is Integer))
+}
+spec fn color_rule(p: Seq<Record>) -> bool {
+    all_or_none(p, RecordName::ColorRed, RecordName::ColorGreen, RecordName::ColorBlue)
+    && flag_rule(p, RecordName::IsColorInvalid, RecordName::ColorRed, 1)
+}
+spec fn return_rule(p: Seq<Record>) -> bool {
+    (has_name(p, RecordName::ReturnCount) ==> dt_of(p, RecordName::ReturnCount) is Integer)
+    && (has_name(p, RecordName::ReturnIndex) ==> dt_of(p, RecordName::ReturnIndex) is Integer)
+    && (has_name(p, RecordName::ReturnCount) == has_name(p, RecordName::ReturnIndex))
+}
+/// every record name is used at most once (a Structure cannot have two children of the same name)
+spec fn no_dup(p: Seq<Record>) -> bool { forall|a: int, b: int| 0 <= a < b < p.len() ==> (#[trigger] p[a]).name != (#[trigger] p[b]).name }
+spec fn documented_rules(p: Seq<Record>) -> bool {
+    &&& no_dup(p)
+    &&& cartesian_rule(p) && spherical_rule(p)
+    &&& (has_name(p, RecordName::CartesianX) || has_name(p, RecordName::SphericalAzimuth))
+    &&& color_rule(p) && return_rule(p)
+    &&& (has_name(p, RecordName::RowIndex) ==> dt_of(p, RecordName::RowIndex) is Integer)
+    &&& (has_name(p, RecordName::ColumnIndex) ==> dt_of(p, RecordName::ColumnIndex) is Integer)
+    &&& flag_rule(p, RecordName::IsIntensityInvalid, RecordName::Intensity, 1)
+    &&& flag_rule(p, RecordName::IsTimeStampInvalid, RecordName::TimeStamp, 1)
+}
+proof fn lemma_first_named(p: Seq<Record>, name: RecordName)
+    requires has_name(p, name)
+    ensures 0 <= first_named(p, name) < p.len(), p[first_named(p, name)].name == name,
+        forall|j: int| 0 <= j < first_named(p, name) ==> (#[trigger] p[j]).name != name,
+{
+    reveal(first_named);
+    let i0 = choose|i: int| 0 <= i < p.len() && (#[trigger] p[i]).name == name;
+    lemma_least(p, name, i0);
+}
+proof fn lemma_least(p: Seq<Record>, name: RecordName, i: int)
+    requires 0 <= i < p.len(), p[i].name == name
+    ensures exists|k: int| 0 <= k < p.len() && (#[trigger] p[k]).name == name && forall|j: int| 0 <= j < k ==> p[j].name != name
+    decreases i
+{
+    if exists|j: int| 0 <= j < i && (#[trigger] p[j]).name == name {
+        let j = choose|j: int| 0 <= j < i && (#[trigger] p[j]).name == name;
+        lemma_least(p, name, j);
+    } else {
+        assert(forall|j: int| 0 <= j < i ==> p[j].name != name);
+    }
+}
+/// without duplicates the record found first is the only one of its name
+proof fn lemma_rules_imply(p: Seq<Record>)
+    requires documented_rules(p)
+    ensures proto_rules(p)
+{
+    assert forall|i: int| 0 <= i < p.len() && ((#[trigger] p[i]).name == RecordName::RowIndex || p[i].name == RecordName::ColumnIndex || p[i].name == RecordName::ReturnIndex)
+        implies p[i].data_type is Integer by {
+        let nm = p[i].name;
+        assert(has_name(p, nm));
+        lemma_first_named(p, nm);
+        let f = first_named(p, nm);
+        if f != i { if f < i { assert(p[f].name != p[i].name); } else { assert(p[i].name != p[f].name); } }
+    }
+}
+
+//@fn src/pc_writer.rs - contains serves=C10 ret=r
+//@rw prototype\.iter\(\)\.any\(\|p\| p\.name == name\) ==> shim_has_s(prototype, name)
+//@sig
+        ensures r == has_name(prototype@, name)
+//@endfn
+//@fn src/pc_writer.rs - get serves=C10 ret=r
+//@rw prototype\.iter\(\)\.find\(\|p\| p\.name == name\) ==> shim_find_s(prototype, name)
+//@sig
+        ensures (r is Some) == has_name(prototype@, name),
+            r is Some ==> 0 <= first_named(prototype@, name) < prototype@.len() && *r->Some_0 == prototype@[first_named(prototype@, name)],
+//@endfn
+//@fn src/pc_writer.rs - validate_cartesian serves=C10 ret=r
+//@sig
+        /*[C10]*/ ensures (r is Ok) == cartesian_rule(prototype@), r is Err ==> r->Err_0 is Invalid,
+//@endfn
+//@fn src/pc_writer.rs - validate_spherical serves=C10 ret=r
+//@sig
+        /*[C10]*/ ensures (r is Ok) == spherical_rule(prototype@), r is Err ==> r->Err_0 is Invalid,
+//@endfn
+//@fn src/pc_writer.rs - validate_color serves=C10 ret=r
+//@sig
+        /*[C10]*/ ensures (r is Ok) == color_rule(prototype@), r is Err ==> r->Err_0 is Invalid,
+//@endfn
+//@fn src/pc_writer.rs - validate_return serves=C10 ret=r
+//@sig
+        /*[C10]*/ ensures (r is Ok) == return_rule(prototype@), r is Err ==> r->Err_0 is Invalid,
+//@endfn
+/// total bit size of one point
+spec fn point_bits(p: Seq<Record>) -> int decreases p.len() {
+    if p.len() == 0 { 0 } else { point_bits(p.drop_last()) + p.last().data_type.spec_bit_size() }
+}
+proof fn lemma_point_bits_bound(p: Seq<Record>)
+    ensures 0 <= point_bits(p) <= 64 * p.len()
+    decreases p.len()
+{
+    if p.len() > 0 {
+        lemma_point_bits_bound(p.drop_last());
+        match p.last().data_type {
+            RecordDataType::ScaledInteger { min, max, .. } => { lemma_width(min, max); }
+            RecordDataType::Integer { min, max } => { lemma_width(min, max); }
+            _ => {}
+        }
+    }
+}
+// `X.iter().map(|p| E).sum()` is spelled out as the loop that defines it: `{ let mut acc: usize = 0; for p in X.iter() { acc += E; } acc }`
+// (E kept verbatim; overflow of the accumulator is an error, as in Iterator::sum with overflow checks)
+//@fn src/pc_writer.rs - get_max_packet_points serves=C10,C01,C09 ret=r
+//@rw (\w+)\.iter\(\)\.map\(\|(\w+)\| ([^;]+?)\)\.sum\(\); ==> { let mut acc: usize = 0; for \2 in it: \1.iter() { acc += \3; } acc };
+//@sig
+        // a slice of Records (each > 64 bytes) cannot have more elements: allocations are at most isize::MAX bytes
+        requires prototype@.len() < 0x0100_0000_0000_0000,
+        // total (no panic: implicit obligations), at least one point per packet (finalize's drain loop makes progress), and
+        // a packet of that many points fits the 16-bit packet length: header, stream length table, one incomplete byte per stream, the packed points
+        /*[C10]*/ ensures r is Ok ==> 1 <= r->Ok_0 <= 0x10_0000,
+            /*[C10]*/ r is Ok ==> 6 + 2 * prototype@.len() + prototype@.len() + (r->Ok_0 * point_bits(prototype@) + 7) / 8 <= 65535,
+            r is Ok ==> prototype@.len() < 0x8000,
+//@loop 0 head
+            invariant acc == point_bits(prototype@.take(it.index@ as int)), acc <= 64 * it.index@, prototype@.len() < 0x0100_0000_0000_0000,
+                it.index@ <= prototype@.len(),
+//@loop 0 body_start
+            proof {
+                let k = it.index@ as int;
+                assert(prototype@.take(k + 1).drop_last() =~= prototype@.take(k));
+                assert(prototype@.take(k + 1).last() == *p);
+                lemma_point_bits_bound(prototype@.take(k + 1));
+            }
+//@loop 0 after
+        proof { assert(prototype@.take(prototype@.len() as int) =~= prototype@); lemma_point_bits_bound(prototype@); }
+//@tail
+        proof {
+            let a8 = ((u16_max - reserved) * 8) as int; let b = (if point_size_bits >= 1 { point_size_bits } else { 1usize }) as int;
+            assert(max_points * b <= a8) by (nonlinear_arith) requires max_points as int == a8 / b, b > 0, a8 >= 0;
+            assert(max_points <= a8) by (nonlinear_arith) requires max_points as int == a8 / b, b >= 1, a8 >= 0;
+            assert(max_points * point_bits(prototype@) <= max_points * b) by (nonlinear_arith) requires point_bits(prototype@) <= b, max_points >= 0;
+        }
+//@endfn
+/// default limits: the declared range of the attribute's data type (limits()/from_record_type(s) are verified on their real bodies below; Kani unit wr_k re-checks them on the compiled crate)
 spec fn limits_spec(dt: RecordDataType) -> (Option<RecordValue>, Option<RecordValue>) {
     match dt {
         RecordDataType::Single { min, max } => (match min { Some(v) => Some(RecordValue::Single(v)), None => None }, match max { Some(v) => Some(RecordValue::Single(v)), None => None }),
@@ -121,13 +303,25 @@ spec fn intensity_limits_spec(dt: RecordDataType) -> IntensityLimits { Intensity
 spec fn color_limits_spec(r: RecordDataType, g: RecordDataType, b: RecordDataType) -> ColorLimits {
     ColorLimits { red_min: limits_spec(r).0, red_max: limits_spec(r).1, green_min: limits_spec(g).0, green_max: limits_spec(g).1, blue_min: limits_spec(b).0, blue_max: limits_spec(b).1 }
 }
+impl RecordDataType {
+// `opt.map(RecordValue::Kind)` is spelled out as the match that defines Option::map
+//@fn src/record.rs RecordDataType limits serves=C14 ret=r
+//@rw (\w+)\.map\(RecordValue::(\w+)\) ==> (match *\1 { Some(v) => Some(RecordValue::\2(v)), None => None }) ;n=4
+//@sig
+        /*[C14]*/ ensures r == limits_spec(*self)
+//@endfn
+}
 impl IntensityLimits {
-    #[verifier::external_body]
-    fn from_record_type(data_type: &RecordDataType) -> (r: Self) ensures r == intensity_limits_spec(*data_type) { unimplemented!() }
+//@fn src/limits.rs IntensityLimits from_record_type serves=C14 ret=r
+//@sig
+        /*[C14]*/ ensures r == intensity_limits_spec(*data_type)
+//@endfn
 }
 impl ColorLimits {
-    #[verifier::external_body]
-    fn from_record_types(red: &RecordDataType, green: &RecordDataType, blue: &RecordDataType) -> (r: Self) ensures r == color_limits_spec(*red, *green, *blue) { unimplemented!() }
+//@fn src/limits.rs ColorLimits from_record_types serves=C14 ret=r
+//@sig
+        /*[C14]*/ ensures r == color_limits_spec(*red, *green, *blue)
+//@endfn
 }
 /// assumed: derive(Default) yields all-None bounds
 impl CartesianBounds { #[verifier::external_body] fn spec_default() -> (r: Self) ensures r == (CartesianBounds { x_min: None, x_max: None, y_min: None, y_max: None, z_min: None, z_max: None }) { unimplemented!() } }
@@ -360,9 +554,37 @@ impl<'a> PointCloudWriter<'a> {
     spec fn packed_now(&self) -> int {
         if self.max_points_per_packet <= self.buffer@.len() { self.max_points_per_packet as int } else { self.buffer@.len() as int }
     }
+// the two local closures `contains` / `get` of validate_prototype are beta-reduced: their bodies are those of the free functions of the same name
+//@fn src/pc_writer.rs PointCloudWriter validate_prototype serves=C10,C14,C01 ret=r
+//@rw let contains = \|n: RecordName\| prototype\.iter\(\)\.any\(\|p\| p\.name == n\); ==> <empty>
+//@rw let get = \|n: RecordName\| prototype\.iter\(\)\.find\(\|p\| p\.name == n\); ==> <empty>
+//@rw (?<![\w.])(contains|get)\((RecordName::\w+)\) ==> \1(prototype, \2)
+//@rw for \(i, record\) in prototype\.iter\(\)\.enumerate\(\) \{ ==> for i in 0..prototype.len() { let record = &prototype[i];
+//@rw prototype\[\.\.i\]\.iter\(\)\.any\(\|p\| p\.name == record\.name\) ==> shim_has_ref(&prototype[..i], &record.name)
+//@sig
+        // accepted exactly when the prototype follows the documented rules; a rejection is an Invalid error
+        /*[C10]*/ ensures (r is Ok) == documented_rules(prototype@), r is Err ==> r->Err_0 is Invalid,
+//@loop 0 head
+            invariant forall|a: int, b: int| 0 <= a < b < i ==> (#[trigger] prototype@[a]).name != (#[trigger] prototype@[b]).name,
+//@loop 0 body_start
+            proof {
+                // a name found among the earlier records is a duplicate, and the other way round
+                assert(has_name(prototype@.subrange(0, i as int), prototype@[i as int].name)
+                    == exists|a: int| 0 <= a < i && (#[trigger] prototype@[a]).name == prototype@[i as int].name) by {
+                    if has_name(prototype@.subrange(0, i as int), prototype@[i as int].name) {
+                        let a = choose|a: int| 0 <= a < i && (#[trigger] prototype@.subrange(0, i as int)[a]).name == prototype@[i as int].name;
+                        assert(prototype@[a].name == prototype@[i as int].name);
+                    }
+                    if exists|a: int| 0 <= a < i && (#[trigger] prototype@[a]).name == prototype@[i as int].name {
+                        let a = choose|a: int| 0 <= a < i && (#[trigger] prototype@[a]).name == prototype@[i as int].name;
+                        assert(prototype@.subrange(0, i as int)[a].name == prototype@[i as int].name);
+                    }
+                }
+            }
+//@endfn
+
 //@fn src/pc_writer.rs PointCloudWriter new serves=C01,C02,C14,C10,C16,C15 ret=r
 //@rw writer: &'a mut PagedWriter<T> ==> writer: &'a mut PagedWriter
-//@rw Self::validate_prototype\(&prototype\)\? ==> validate_prototype_contract(&prototype)?
 //@rw vec!\[ByteStreamWriteBuffer::new\(\); prototype\.len\(\)\] ==> shim_vec_bsw(prototype.len())
 //@rw prototype\s*\.iter\(\)\s*\.any\(\|p\| p\.name == (RecordName::\w+)\) ==> shim_has(&prototype, \1)
 //@rw prototype\.iter\(\)\.any\(\|p\| \{\s*p\.name == RecordName::ReturnIndex\s*\|\| p\.name == RecordName::ColumnIndex\s*\|\| p\.name == RecordName::RowIndex\s*\}\) ==> (shim_has(&prototype, RecordName::ReturnIndex) || shim_has(&prototype, RecordName::ColumnIndex) || shim_has(&prototype, RecordName::RowIndex))
@@ -372,7 +594,7 @@ impl<'a> PointCloudWriter<'a> {
 //@rw section_header\.write\(writer\)\? ==> section_header.write(writer)?
 //@rw (CartesianBounds|SphericalBounds|IndexBounds)::default\(\) ==> \1::spec_default()
 //@sig
-        requires old(writer).wf(), old(writer).cursor() % 4 == 0, prototype@.len() < 0x8000,
+        requires old(writer).wf(), old(writer).cursor() % 4 == 0, prototype@.len() < 0x0100_0000_0000_0000,
         ensures
             r is Ok ==> r->Ok_0.wf_w(),
             r is Ok ==> r->Ok_0.bounds_present(),
@@ -417,6 +639,7 @@ impl<'a> PointCloudWriter<'a> {
         }
 //@stmt 0 before Ok\(PointCloudWriter \{
         proof {
+            lemma_rules_imply(prototype@);
             lemma_bounds_present(prototype@, cartesian_bounds is Some, spherical_bounds is Some, index_bounds is Some);
             assert(writer.cursor() == w0.cursor() + 32);
             assert(section_header.section_length as int == writer.cursor() - unphys(section_offset as int));
@@ -610,6 +833,9 @@ impl<'a> PointCloudWriter<'a> {
                 &&& pc.color_limits == old(self).color_limits && pc.intensity_limits == old(self).intensity_limits
             }),
             /*[C16]*/ r is Ok ==> final(self).writer.no_new_fault(&*old(self).writer),
+            // C15/C16: a point cloud whose finalize failed (device fault while its section header is patched) is NOT published:
+            // the top-level finalize can then never list a section whose header is still the placeholder
+            /*[C15,C16]*/ r is Err ==> final(self).pointclouds@ == old(self).pointclouds@,
             /*[C15]*/ PointCloudWriter::c15_pc(old(self), final(self), r is Ok),
 //@loop 0 head
             invariant self.wf_w(), self.same_meta(old(self)), self.writer.no_new_fault(&*old(self).writer),
